@@ -106,7 +106,7 @@ class Check:
 
         for rule, n in self.min_counts.items():
             got = sum(1 for r, _, _ in self.instances if r == rule)
-            if got < n:
+            if got < n and not any(v["rule"] == rule for v in self.violations):
                 raise AnalysisError(
                     "rule %s matched %d instances, fewer than the %d confirmed by hand "
                     "(vacuous pass refused)" % (rule, got, n)
